@@ -177,7 +177,25 @@ class SymMath(types.ModuleType):
     def _pow(a, b):
         if not core.is_sym(a) and not core.is_sym(b):
             return _math.pow(a, b)
-        raise core.HarnessError("math.pow on symbolic values")
+        if core.is_sym(b) or not (0.0 < b < 1.0):
+            raise core.HarnessError("math.pow on symbolic values")
+        # v ** p with a concrete exponent 0 < p < 1 (a root): uninterpreted with the order facts;
+        # a negative base is math.pow's domain error
+        z3 = core.z3
+        E = core.ENG
+        v = a if isinstance(a, core.SR) else core.SR(z3.ToReal(a.e))
+        if v < 0:
+            raise ValueError("math domain error")
+        f = z3.Function("POW", z3.RealSort(), z3.RealSort(), z3.RealSort())
+        r = f(v.e, core._rv(b))
+        E.solver.add(r >= 0, (v.e == 0) == (r == 0), (v.e < 1) == (r < 1), (v.e == 1) == (r == 1))
+        key = "_pows_%r" % b
+        for (w, pw) in getattr(E, key, []):
+            E.solver.add((v.e < w) == (r < pw), (v.e == w) == (r == pw))
+        setattr(E, key, getattr(E, key, []) + [(v.e, r)])
+        E._dirty = True
+        E.uflog.append(("POW", [v.e, core._rv(b)], r))
+        return core.SR(r, v.bad)
 
     @staticmethod
     def _ceil(v):
